@@ -50,6 +50,7 @@ CONSTANTS Platforms,   \* subset of {"default", "plat"}: the platform the instan
           UserVars,    \* subset of {"none", "global", "stage"}: user variable file given at creation
           Repls,       \* subset of BOOLEAN: does a component replicate (factor = variable n, which "global" user variables override)
           LoopsC,      \* subset of BOOLEAN: does the package import a DoWhile document
+          Empties,     \* subset of {"absent", "empty"}: does a component set options explicitly to empty / zero / false (see Explicit)
           Blueprints,  \* subset of {"g", "gs", "sP", "all"}: which blueprint layers define the same option (see Defines)
           MaxIter,     \* loop iterations beyond iteration 0 (kept below 10: see C05)
           MaxPatch,    \* patch generations
@@ -63,7 +64,7 @@ VARIABLES pk,    \* the package and creation options (constant along a behaviour
 vars == <<pk, mem, disk, hist>>
 view == <<pk, mem, disk>>
 
-Packages == [plat : Platforms, uv : UserVars, repl : Repls, loop : LoopsC, bp : Blueprints]
+Packages == [plat : Platforms, uv : UserVars, repl : Repls, loop : LoopsC, bp : Blueprints, ex : Empties]
 (* `loaded`: were the live objects rebuilt from the directory (Load) or made from the package (Create).  It is     *)
 (* part of the state (so that TLC also takes every step from a reloaded experiment) but no observable fact may     *)
 (* depend on it; the directory never records it.                                                                   *)
@@ -103,9 +104,22 @@ Threads2(p, d) == Winner(p, d, FALSE)
 (* before and after any reload.  The platform's stage layer overrides its text (prefix "pz" instead of "z").         *)
 LzPrefix(p, d) == IF ~(p.repl \/ p.loop) THEN "" ELSE IF d.plat = "plat" THEN "pz" ELSE "z"
 
+(* "Explicitly empty is not absent".  The component `opt` either leaves a group of options alone ("absent": it gets   *)
+(* the blueprint / built-in / global values, which are all non-empty, non-zero, true) or sets every one of them       *)
+(* explicitly to the empty list, the empty string, 0 or false ("empty").  A stored description that drops such        *)
+(* values (they look like "nothing" to a serializer) brings the defaults back on reload.                               *)
+(*   hook: workflowAttributes.restartHookOn (built-in [ResourceExhausted]);  shut: workflowAttributes.shutdownOn       *)
+(*   (global blueprint [KnownIssue]);  retries: repeatRetries (built-in 3);  memo: memoization.disable.strong          *)
+(*   (global blueprint true);  es / zero / flag: component variables over the global "text" / 5 / true.                *)
+Explicit(p) == IF p.ex = "empty"
+               THEN [hook |-> <<>>, shut |-> <<>>, retries |-> 0, memo |-> FALSE, es |-> "", zero |-> 0, flag |-> FALSE]
+               ELSE [hook |-> <<"ResourceExhausted">>, shut |-> <<"KnownIssue">>, retries |-> 3, memo |-> TRUE,
+                     es |-> "text", zero |-> 5, flag |-> TRUE]
+
 View(p, d) == [live |-> d.live, plat |-> d.plat, uv |-> UvVal(d), pv |-> PvVal(d), sv |-> SvVal(d),
                nrep |-> Replicas(p, d), wall |-> Walltime(d), ovr |-> Override(d), pp |-> PpVal(d), iters |-> d.iters,
-               threads |-> Threads(p, d), threads2 |-> Threads2(p, d), lzp |-> LzPrefix(p, d)]
+               threads |-> Threads(p, d), threads2 |-> Threads2(p, d), lzp |-> LzPrefix(p, d),
+               opt |-> Explicit(p)]
 
 ---------------------------------------------------------------------------
 Init == /\ pk \in Packages
